@@ -252,7 +252,7 @@ def judge(ctx, traces, verdicts):
                 fp["config"] = tr["config_text"].strip().splitlines()[-1]
             ctx.add_violation(name, fp, "configuration\n%s-> %s violates %s (log: %s)" % (tr["config_text"], json.dumps(tr["events"][-8:]), name, tr["log_tail"][-300:].replace("\n", " | ")), case, detail={"events": tr["events"]})
         if v.nc is not None and not v.pv:
-            ctx.add_drift("daemon run for\n%s gave %s - not a behaviour of Daemon.tla" % (tr["config_text"], json.dumps(tr["events"][-8:])), case)
+            ctx.add_drift("daemon run for %s gave %s - event %s is not a step of Daemon.tla" % (json.dumps(tr["config_text"]), json.dumps(tr["events"]), list(v.nc)), case)
         ctx.note_distinct([tr["cfg"]])
 
 
